@@ -281,6 +281,30 @@ def step (st : DState) (line : String) : DState × String :=
           "D " ++ (match d.1 with | some vx => ratToString vx | none => "None") ++ " " ++ ratToString d.2
         | .error e => showErr e
       | _, _, _ => "bad-op")
+  | "cw" :: v :: dw :: dw2 :: cid :: ws =>
+    -- PDFCIDFont glue: `cw <0|1> <DW word|-> <DW2 list word|-> <cid> <W elems> | <W2 elems>`
+    let w1 := ws.takeWhile (· != "|")
+    let w2 := (ws.dropWhile (· != "|")).drop 1
+    let dwv : Option (Option WVal) := if dw == "-" then some none else (parseWVal dw).map some
+    let dw2v : Option (Option (List WVal)) := if dw2 == "-" then some none else
+      match parseWElem dw2 with
+      | some (.list xs) => some (some xs)
+      | _ => none
+    (st, match dwv, dw2v, cid.toNat?, parseWElems w1, parseWElems w2 with
+      | some dwv, some dw2v, some cid, some w1, some w2 =>
+        let a := match cidCharWidth (v == "1") w1 dwv w2 dw2v cid with
+          | .ok r => "R " ++ ratToString r
+          | .error e => showErr e
+        let b := match cidCharDisp (v == "1") w2 dw2v cid with
+          | .ok .zero => "D 0"
+          | .ok (.vec vx vy) => "D " ++ (match vx with | some x => ratToString x | none => "None") ++ " " ++ ratToString vy
+          | .error e => showErr e
+        a ++ " " ++ b
+      | _, _, _, _, _ => "bad-op")
+  | ["coding", r, o] =>
+    (st, match (if r == "-" then some none else (bytesOfHex r).map some), (if o == "-" then some none else (bytesOfHex o).map some) with
+      | some r, some o => "K " ++ hexOfBytes (cidCoding r o)
+      | _, _ => "bad-op")
   | _ => (st, "bad-op")
 
 partial def loop (h : IO.FS.Stream) (out : IO.FS.Stream) (st : DState) : IO Unit := do
